@@ -84,15 +84,20 @@ def initCurrent (members : List MemberIn) : List (Member × List TP) :=
     members.foldl (fun acc m => m.prev.foldl (fun acc p => if alHas acc p then acc else acc ++ [(p, m.id)]) acc) []
   claims.foldl (fun cur pc => alSet cur pc.2 (alGetD cur pc.2 [] ++ [pc.1])) []
 
+/-- the partitions a member could get: those of the topics it subscribes to that have metadata -/
+def potentialOf (parts : List (Topic × List Nat)) (m : MemberIn) : List TP :=
+  m.subs.flatMap (fun t => match alGet parts t with | none => [] | some ps => ps.map (fun p => (t, p)))
+
+def allTpsOf (parts : List (Topic × List Nat)) : List TP :=
+  parts.flatMap (fun tps => tps.2.map (fun p => (tps.1, p)))
+
 def initState (parts : List (Topic × List Nat)) (members : List MemberIn) (oracle : List TP) : St :=
   let cur0 := initCurrent members
   let fresh := cur0.isEmpty
   let owner := cur0.flatMap (fun cp => cp.2.map (fun p => (p, cp.1)))
-  let allTps : List TP := parts.flatMap (fun tps => tps.2.map (fun p => (tps.1, p)))
-  let potential (m : MemberIn) : List TP :=
-    m.subs.flatMap (fun t => match alGet parts t with | none => [] | some ps => ps.map (fun p => (t, p)))
-  let c2p := members.map (fun m => (m.id, potential m))
-  let p2c := allTps.map (fun tp => (tp, (members.filter (fun m => (potential m).contains tp)).map (·.id)))
+  let c2p := members.map (fun m => (m.id, potentialOf parts m))
+  let p2c := (allTpsOf parts).map
+    (fun tp => (tp, (members.filter (fun m => (potentialOf parts m).contains tp)).map (·.id)))
   let cur := members.foldl (fun cur m => if alHas cur m.id then cur else cur ++ [(m.id, [])]) cur0
   { members := members, cur := cur, owner := owner, p2c := p2c, c2p := c2p, subs := [],
     sortedParts := [], unassigned := [], revocation := false, fresh := fresh,
